@@ -10,9 +10,9 @@ CHECKS = {
  "C01": ("fault_enumeration", "exhaustive enumeration of per-namespace tamper combinations on the serving repository, real radicle_fetch clone/pull over git upload-pack",
          "Every combination (within the stated alphabet) of tampering per namespace x fetch mode x refs_at is served to the real fetch code; the fetcher's refdb is compared before/after against independently re-verified signed refs.",
          "trusted: git upload-pack, libgit2, ed25519; alphabet of tamper kinds and 2-3 namespaces"),
- "C02": ("fault_enumeration", "exhaustive enumeration of delegate-set x threshold x per-delegate sigrefs state, real radicle_fetch pull",
+ "C02": ("fault_enumeration", "exhaustive enumeration of delegate-set x threshold x per-delegate sigrefs state: real radicle_fetch pull, and real clones through the node worker (initiator and responder back to back)",
          "All delegate sets / thresholds / per-delegate sigrefs states in the bound are offered to the real fetch; ancestry of delegate sigrefs and the threshold gate are checked on the resulting storage.",
-         "trusted: git upload-pack, libgit2; bounded to <=4 delegates"),
+         "trusted: git upload-pack, libgit2; bounded to <=4 delegates (pull), <=3 remote delegates (worker clone)"),
  "C03": ("exploration", "exhaustive enumeration of labelled commit DAG shapes x delegate tip assignments x thresholds x object-id rank orders, real Canonical::quorum",
          "Every assignment over the DAG family is evaluated by the real quorum code on real git repositories and compared with a support-count oracle computed on the harness's own DAG.",
          "trusted: libgit2 merge-base; DAG family <=6 commits, <=5 delegates"),
